@@ -295,7 +295,17 @@ def run_case(case, rec):
                                 eqp = own
                             pd = ParamsDict(nn_params={q_: fs[q_].leaves() for q_ in keys}, eq_params=eqp)
                             dl = jinns.loss.GeneralizedLotkaVolterra(key_main=main, keys_other=list(perm), Tmax=Tmax)
-                            udict = {q_: u1 for q_ in keys}
+                            # one shared network object for every population (parameters differ), or one distinct
+                            # object per population (different output transform, same parameter structure)
+                            distinct = bool((k + n_other) % 2)
+                            scales = {q_: (1.0 + 0.35 * i if distinct else 1.0) for i, q_ in enumerate(keys)}
+                            if distinct:
+                                udict = {q_: fields.make_pinn(f0.module(), "ODE", 1,
+                                                              output_transform=(lambda i_, o_, p_, s_=scales[q_]: o_ * s_))
+                                         for q_ in keys}
+                                rec.count("glv_distinct_network_objects")
+                            else:
+                                udict = {q_: u1 for q_ in keys}
                             if fam == "exact":
                                 if n_other != 1 or layout != "shared":
                                     continue
@@ -329,8 +339,8 @@ def run_case(case, rec):
                                 t = float(rng.uniform(0, 1))
                                 tj = J(t) if tshape == "0d" else J([t])
                                 got = guard.call(lambda: dl.evaluate(tj, udict, pd))
-                                vals = {q_: fs[q_].val([t])[0] for q_ in keys}
-                                dlog = fs[main].grad([t])[0, 0] / vals[main]
+                                vals = {q_: scales[q_] * fs[q_].val([t])[0] for q_ in keys}
+                                dlog = scales[main] * fs[main].grad([t])[0, 0] / vals[main]
                                 order = [main] + list(perm)
                                 it = sum(inter[i] * vals[q_] for i, q_ in enumerate(order))
                                 ct = carry * sum(vals[q_] for q_ in order)
